@@ -129,3 +129,11 @@ void h_Operator_getMatrixElement_v(void)
   REACH("exit");
   if (VERIF_thrown) REACH("rejected");
 }
+
+/* ======================= MUTATION RECORD (tools/try_mutant.py; all killed) =======================
+ * `melem += ...` -> `melem -= ...`                                   Operator_getMatrixElement_v_wrapped_for_contract_checking.5/.13 (loop-invariant steps: melem == spec sum)
+ * `melem += overlap2 * melem2 * overlap` -> `overlap2 * melem2`      same two
+ * `bra(j)` -> `bra(i)`                                               MapFMIt_postinc.assertion.2 (bra is read at the position of the result state)
+ * `std::abs(overlap) > eps` -> `<`                                   Operator_actRight_ket.assertion.1, loop_invariant_step.2
+ * size test reduced to `bra.size()!=ket.size()`                      Operator_getMatrixElement_v.postcondition.1, VecFS_at.assertion.1, RVec_call.assertion.1
+ * NOT PROVED: that std::find / actRight return what they should (oracles); the complex build (conjugation of bra). */
